@@ -11,7 +11,8 @@ From PyGql Require Import Lang.Parser Lang.Loc Spec.LexSpec Spec.GrammarSpec Spe
   Spec.LexicalSpec Proofs.LexicalProofs Proofs.AcceptProofs
   Spec.SdlGrammarSpec Proofs.SdlGrammarSound Proofs.SdlGrammarComplete Proofs.SdlLookahead Proofs.SdlEntryProofs
   Spec.ExecOnlySpec Proofs.ParseOutputWf Proofs.FollowProofs Proofs.StrictAcceptProofs
-  Spec.LexErrorSpec Proofs.LexErrorProofs Proofs.LexErrorComplete Proofs.ErrorOrigin.
+  Spec.LexErrorSpec Proofs.LexErrorProofs Proofs.LexErrorComplete Proofs.ErrorOrigin
+  Spec.ViablePrefixSpec Proofs.ViableTypeProofs Proofs.ViableValueProofs.
 
 (* ---- numbers: the automaton of _read_number accepts exactly IntValue /
    FloatValue followed by an admissible character ---- *)
@@ -127,6 +128,44 @@ Theorem C01_lexical_rejection_spec : forall fl s k p, lexical k ->
   lex_error s k p.
 Proof. exact lexical_rejection_spec. Qed.
 Print Assumptions C01_lexical_rejection_spec.
+
+(* ---- which token the parser blames (Spec/ViablePrefixSpec.v) ----
+   parse_type / parse_value: a rejection is the lexer's, or it is raised at the
+   start of a token t of the text's token stream such that the tokens before t
+   are a prefix of some sentence SOF Type EOF (resp. SOF Value EOF) and
+   extended by t they are not: the first token at which the text stops being a
+   viable prefix.  The class is UnexpectedToken, for values UnexpectedEOF when
+   t is the EOF token and the value grammar (not a punctuator) expected more. *)
+Theorem C01_type_blamed_token : forall fl s k p,
+  parse_type_str fl s = Rejected k p ->
+  lex s = Rejected k p
+  \/ exists pre t post, lex_stream s = map LT pre ++ LT t :: post /\ p = tstart t /\ k = E_UnexpectedToken
+                        /\ blamed (type_sentence (no_location fl)) pre t.
+Proof. exact parse_type_blame. Qed.
+Print Assumptions C01_type_blamed_token.
+
+Theorem C01_value_blamed_token : forall fl s k p,
+  parse_value_str fl s = Rejected k p ->
+  lex s = Rejected k p
+  \/ exists pre t post, lex_stream s = map LT pre ++ LT t :: post /\ p = tstart t
+       /\ (k = E_UnexpectedToken \/ (k = E_UnexpectedEOF /\ tk t = KEOF))
+       /\ blamed (value_sentence (no_location fl)) pre t.
+Proof. exact parse_value_blame. Qed.
+Print Assumptions C01_value_blamed_token.
+
+(* on a text that lexes, in terms of its token sequence; and the blamed token is unique *)
+Theorem C01_blamed_token_of_tokens : forall fl s ts k p, lex s = Ok ts ->
+  (parse_type_str fl s = Rejected k p ->
+     exists pre t post, ts = pre ++ t :: post /\ p = tstart t /\ blamed (type_sentence (no_location fl)) pre t)
+  /\ (parse_value_str fl s = Rejected k p ->
+     exists pre t post, ts = pre ++ t :: post /\ p = tstart t /\ blamed (value_sentence (no_location fl)) pre t).
+Proof. exact blamed_token_of_tokens. Qed.
+Print Assumptions C01_blamed_token_of_tokens.
+
+Theorem C01_blamed_unique : forall (S : list ptok -> Prop) pre t post pre' t' post',
+  pre ++ t :: post = pre' ++ t' :: post' -> blamed S pre t -> blamed S pre' t' -> pre = pre' /\ t = t'.
+Proof. exact blamed_unique. Qed.
+Print Assumptions C01_blamed_unique.
 
 (* Rendering (str(e), to_dict()) uses min(position, len(source)): index_to_loc
    then never raises, line and column are at least 1, and the line exists in
